@@ -243,9 +243,12 @@ Ltac src_swap :=
   | |- bind ?e1 _ = bind ?e2 _ =>
       etransitivity; [ apply (bind_swap e1 e2); apply rd_idx_only | ]
   end.
-Ltac src_eq := repeat first [ progress src_rew | progress cbn [fst snd] | src_step ].
-(* the same, also re-ordering index-checked reads where the two sides perform them in a different order *)
-Ltac src_eq_swap := repeat first [ progress src_rew | progress cbn [fst snd] | src_step | src_swap ].
+(* structural equality of two monadic terms; where the two sides perform two index-checked reads in a different order (the
+   source was rewritten `let t = a[i] * b[j]; x[k] -= t` <-> `x[k] = x[k] - a[i] * b[j]`, or the model reads in another order)
+   the reads are commuted (bind_swap: both can only fail with Panic Index).  src_swap fires only when nothing else applies and
+   only when the second step of the left side IS the first step of the right side, so every swap is followed by progress. *)
+Ltac src_eq := repeat first [ progress src_rew | progress cbn [fst snd] | src_step | src_swap ].
+Ltac src_eq_swap := src_eq.
 
 (* ------------------------------------------------------------------ loops over lists: push / fold / tabulate / update in place *)
 Section ListLoops.
